@@ -43,6 +43,13 @@ def build(tables_present, versions_variant, exprs_on, ff):
     for off, tag, (x, y) in ((21, "AB", ("A", "B")), (25, "BA", ("B", "A")), (29, "AK", ("A", "K1"))):
         if tag in exprs_on:
             bi.symbolic_expressions[off] = gtirb.SymAddrAddr(1, 0, S[x], S[y])
+    # a second byte interval with UNRELATED expressions (kept symbols only) at the very same interval-relative offsets
+    from gtirb_test_helpers import add_data_section
+    _, dbi2 = add_data_section(m, address=0x8000)
+    dbi2.contents = b"\x00" * 40
+    dbi2.size = 40
+    for off in (0, 4, 8, 12, 17, 21, 25, 29):
+        dbi2.symbolic_expressions[off] = gtirb.SymAddrConst(off, S["K2"] if off % 8 else S["K1"])
     if "elfSymbolInfo" in tables_present:
         _auxdata.elf_symbol_info.set(m, {s: (0, "FUNC", "GLOBAL", "DEFAULT", 0) for s in S.values()})
     if "elfSymbolTabIdxInfo" in tables_present:
@@ -97,15 +104,15 @@ def snapshot(m, S):
         d, r, e = t
         out["elfSymbolVersions"] = ({k: (list(v[0]), v[1]) for k, v in d.items()}, {k: dict(v) for k, v in r.items()}, {N(k): v for k, v in e.items()})
     out["symbols"] = sorted(N(s) for s in m.symbols)
-    out["exprs"] = sorted((k, type(e).__name__, tuple(N(s) for s in e.symbols)) for i in m.byte_intervals for k, e in i.symbolic_expressions.items())
+    out["exprs"] = sorted((i.address, k, type(e).__name__, tuple(N(s) for s in e.symbols)) for i in m.byte_intervals for k, e in i.symbolic_expressions.items())
     return out
 
 
 def oracle(pre, deleted, force):
     """expected snapshot after deleting `deleted` (names) -- written from the property statement"""
     D = set(deleted)
-    uses = [x for x in pre["exprs"] if set(x[2]) & D]
-    unforced_used = [n for n in D if not force[n] and any(n in x[2] for x in uses)]
+    uses = [x for x in pre["exprs"] if set(x[3]) & D]
+    unforced_used = [n for n in D if not force[n] and any(n in x[3] for x in uses)]
     if unforced_used:
         return ("SymbolUsesRemainingError", None)
     out = {}
@@ -142,7 +149,7 @@ def oracle(pre, deleted, force):
                 reqs2[lib] = keep
         out["elfSymbolVersions"] = (defs2, reqs2, ent2)
     out["symbols"] = sorted(set(pre["symbols"]) - D)
-    out["exprs"] = [x for x in pre["exprs"] if not (set(x[2]) & D)]
+    out["exprs"] = [x for x in pre["exprs"] if not (set(x[3]) & D)]
     return ("ok", out)
 
 
